@@ -633,6 +633,11 @@ func (e *SpecEnv) evalCall(x *SCall) Val {
 			if isUntyped(b.T) {
 				b = e.coerce(b, a.T)
 			}
+			if isUntyped(a.T) && isUntyped(b.T) {
+				// two constants: the conditional value is an ordinary int
+				a = e.coerce(a, types.Typ[types.Int])
+				b = e.coerce(b, types.Typ[types.Int])
+			}
 			return Val{T: a.T, S: fmt.Sprintf("(ite %s %s %s)", cnd.S, c.termOf(a), c.termOf(b))}
 		case "min", "max":
 			a, b := e.eval(x.Args[0]), e.eval(x.Args[1])
